@@ -798,6 +798,66 @@ class Interp(seq_detached.DetachedMixin, S.SeqRun):
                           % (desc, str(res)[:160]))
         return st
 
+    def op_bulk_del(self, a, b, c):
+        """select(...).delete(bulk=True): one DELETE statement, the database's ON DELETE clauses do what
+        Entity._delete_ does in memory (C15: "including rows deleted by bulk query deletes").  The objects in
+        memory are not told, so the op flushes first, commits right after and ends the session's work."""
+        order = self.ent_order()
+        e = self.schema.by_name[order[a % len(order)]]
+        P = self.E[e.name]
+        attrs = [x for x in e.scalars() if not x.auto]
+        at = attrs[b % len(attrs)]
+        p = pool(e.name, at.name)
+        val = p[c % len(p)]
+        name = at.name
+        self.op_flush()
+        if val is None or (c >> 4) % 3 == 0:
+            what = 'bulk_del delete(x for x in %s)' % e.name
+            q = lambda: select(x for x in P)
+            matched = sorted(o.mid for o in self.view.live(e.name))
+        else:
+            what = 'bulk_del delete(x for x in %s if x.%s == %r)' % (e.name, name, val)
+            q = lambda: select(x for x in P if getattr(x, name) == val)
+            matched = self._matching(e, at, val)
+        self.cur_op_desc = what
+        v2 = self.view.clone()
+        col = lambda ra: bool(getattr(self.E[ra.ent.name], ra.name).columns)
+        allowed = v2.db_bulk_delete(e.name, matched, has_column=col)
+        self.probe('bulk_delete_%s' % ('allowed' if allowed else 'restricted'))
+        try:
+            n = q().delete(bulk=True)
+        except Exception as ex:
+            self.trace.append('%s.%s FAIL %s -> %s' % (self.sess_index, self.op_index, what, type(ex).__name__))
+            if allowed and not self.fault_fired_in_session and not any(getattr(x, 'ponysim_injected', None) for x in _chain(ex)):
+                self.probe('obs_bulk_delete_refused_although_the_keys_allow_it')
+            raise S.Poisoned()      # the session is rolled back; the file must hold what was committed before
+        self.trace.append('%s.%s OK   %s -> %d' % (self.sess_index, self.op_index, what, n))
+        if not allowed:
+            # the statement went through although a row that requires one of the deleted rows is left: commit
+            # and let the dump speak (dangling reference, or rows that vanished with it)
+            self.probe('bulk_delete_accepted_against_the_rule')
+            v2 = self.view.clone()
+            for m in matched:
+                v2.objs[m].deleted = True
+        self.view = v2
+        self.cur_op_desc = what + ' ; commit'
+        try:
+            commit()
+        except Exception as ex:
+            self.flush_failed(ex, 'commit after bulk delete')
+            raise S.Poisoned()
+        self.after_flush()
+        self.committed = self.view.clone()
+        if not self.compare_db(self.committed, 'C09', 'committed-state-differs', 'commit-after-bulk-delete'):
+            self.viol('C15', 'bulk-delete-differs-from-cascade-rules', e.name,
+                      '%s deleted %d row(s); the committed database differs from what the cascade / unlink / refuse '
+                      'rules give for deleting %r' % (what, n, ['%s#%d' % (e.name, m) for m in matched]))
+        self.probe('commit_ok')
+        # the objects in memory were not told about the statement: they are not judged any more
+        self.handles = {}
+        self.h2m = {}
+        self.stop_session = True
+
     # ------------------------------------------------------------------ reads (C10, C11 identity)
     def expect(self, what, got, exp):
         if got != exp:
@@ -1314,6 +1374,7 @@ class Interp(seq_detached.DetachedMixin, S.SeqRun):
         self.session_clean = True
         self.fault_fired_in_session = False
         self.blind = False
+        self.stop_session = False
         self.cycle_flushed = False
         self.released_keys = set()
         self.taken_keys = set()
@@ -1324,6 +1385,8 @@ class Interp(seq_detached.DetachedMixin, S.SeqRun):
             with db_session(**opts):
                 self.db._get_cache()     # the session cache exists from the start (it is created lazily otherwise)
                 for oi, op in enumerate(sess['ops']):
+                    if self.stop_session:
+                        break
                     self.op_index = oi
                     name, a, b, c = op[0], op[1], op[2], op[3]
                     if policy == 'always' or (policy == 'seeded' and S.mix(si, oi, self.case.get('seed', 0)) % 3 == 0):
@@ -1468,6 +1531,9 @@ class Interp(seq_detached.DetachedMixin, S.SeqRun):
             self.op_new_rawfk(a, b, c)
         elif name == 'del':
             self.op_del(a, b, c)
+        elif name == 'bulk_del':
+            if not self.knobs.get('hook_mode'):
+                self.op_bulk_del(a, b, c)
         elif name == 'flush':
             self.op_flush()
         elif name == 'commit':
